@@ -407,6 +407,22 @@ func runConc9(e *exec) {
 					w.ICMP6.Close()
 					w.DHCP.Close()
 					w.DNS.Close()
+					// the handlers are closed, the session still reads: traffic keeps arriving (router
+					// advertisements of both routers, a DHCP DISCOVER, an ARP request) and must find
+					// closed handlers harmless
+					for k := 0; k < 2; k++ {
+						ra, rmac, rip := raOf(u, Op{N: 3 + k, P: k, S: k})
+						dst := netip.MustParseAddr("ff02::1")
+						for n := 0; n < 4; n++ { // the handler looks at one advertisement in four
+							simrt.NetInject(0, fb.Eth(fb.MulticastMAC6(dst), rmac, 0x86dd, fb.IPv6(rip, dst, 58, 255, fb.ICMP6(rip, dst, 134, 0, ra.Body()))))
+						}
+					}
+					m0 := clientMAC(0)
+					dd := fb.DHCP{Op: 1, XID: [4]byte{0xc, 0, 0, 1}, CHAddr: m0, Options: []fb.DHCPOpt{{Code: 53, Data: []byte{1}}}}
+					simrt.NetInject(0, fb.Eth(fb.Broadcast, m0, 0x0800, fb.IPv4(netip.MustParseAddr("0.0.0.0"), netip.MustParseAddr("255.255.255.255"), 17, 64, 1, fb.UDP(68, 67, dd.Bytes()))))
+					simrt.NetInject(0, fb.Eth(fb.Broadcast, m0, 0x0806, fb.ARP(1, m0, clientIP(0), fb.MAC{}, u.RouterIP)))
+					simrt.Settle()
+					pr["traffic_after_handlers_closed"]++
 					w.S.Close()
 				} else {
 					w.S.Close()
